@@ -383,8 +383,6 @@ class RequestCache(TaskManager):
                 else:
                     future.set_result(on_timeout)
 
-        self.cancel_pending_task(cache)
-
     def _create_identifier(self, number: int, prefix: str) -> str:
         return f"{prefix}:{number}"
 
